@@ -38,7 +38,24 @@ func shapes(tier string) []*tbin.Shape {
 		all = append(all, tbin.Compose(tbin.T2(), false)...)
 	}
 	all = append(all, wideShapes...)
+	all = append(all, longShapes...)
 	return all
+}
+
+// longShapes: containers of STRUCT / container elements with more elements (1100) than any per-value depth or
+// size budget of the skipper counts to (1023 / 1024), followed by a sibling field that every read has to skip to.
+var longShapes = []*tbin.Shape{
+	tbin.StructS(tbin.SF(1, tbin.ListS(tbin.StructS(tbin.SF(1, tbin.Sc(tbin.I32))))), tbin.SF(2, tbin.Sc(tbin.STRING))),
+	tbin.StructS(tbin.SF(1, tbin.SetS(tbin.ListS(tbin.Sc(tbin.I16)))), tbin.SF(2, tbin.Sc(tbin.I32))),
+}
+
+func isLong(s *tbin.Shape) bool {
+	for _, w := range longShapes {
+		if w == s {
+			return true
+		}
+	}
+	return false
 }
 
 // wideShapes: containers with more children than a machine word has bits (70 / 130 struct fields; lists, sets
@@ -136,6 +153,9 @@ func (check) Enumerate(tier string, seed int64, group int, yield func(core.Case)
 			if n > 5 && s.Depth() > 2 {
 				continue // 17^3 leaves per value: depth <= 2 only
 			}
+			if isLong(s) && n != 1 {
+				continue
+			}
 			for _, drop := range []int{0, 1, 2, 3} {
 				if n > 3 && drop != 0 {
 					continue
@@ -214,6 +234,15 @@ func build(s *tbin.Shape, n int, variant int) *tbin.Val {
 	g := &tbin.Gen{Boundary: variant == 2}
 	if isWide(s) && s.T != tbin.STRUCT && n > 0 {
 		n = 70
+	}
+	if isLong(s) && n > 0 {
+		// the outer container gets 1100 elements, whatever is inside them one
+		v := g.Build(s, 1)
+		c := v.Fs[0].V
+		for len(c.L) < 1100 {
+			c.L = append(c.L, g.Build(s.Fields[0].S.Elem, 1))
+		}
+		return v
 	}
 	v := g.Build(s, n)
 	if variant == 1 {
@@ -534,6 +563,14 @@ func invalidSteps(v *tbin.Val, s *tbin.Shape, buf []byte) (abs []tutil.PE, absTr
 				add(tutil.PE{K: 'b', B: append([]byte{}, kb[:len(kb)/2]...)}, "binkey-prefix")
 			}
 			add(tutil.PE{K: 'b', B: append(append([]byte{}, kb...), 0)}, "binkey-extension")
+			if v.KT == tbin.STRING && len(kb) >= 5 {
+				// the bytes of a present string key behind a length prefix that does not fit them
+				for _, f := range []func(b []byte){func(b []byte) { b[3] += 9 }, func(b []byte) { b[0] |= 0x80 }, func(b []byte) { b[2] ^= 1 }} {
+					w := append([]byte{}, kb...)
+					f(w)
+					add(tutil.PE{K: 'b', B: w}, "binkey-wrong-length-prefix")
+				}
+			}
 		}
 	}
 	// wrong kinds
